@@ -2,6 +2,7 @@
 """Runs the pinned pytest baseline on /repo and compares with BASELINE.json."""
 import json, subprocess, sys, tempfile, os
 import xml.etree.ElementTree as ET
+ROOT = sys.argv[1] if len(sys.argv) > 1 else '/repo'
 b = json.load(open('/root/.vp/BASELINE.json'))
 stable = set(b['stable_pass'])
 with tempfile.TemporaryDirectory(dir='/var/tmp') as d:
@@ -10,7 +11,7 @@ with tempfile.TemporaryDirectory(dir='/var/tmp') as d:
   env.pop('FIDDLE_VERIF', None)
   subprocess.run(['/venv/bin/python', '-m', 'pytest', '-ra', '-q', '-p', 'no:cacheprovider',
                   '--timeout=900', '--continue-on-collection-errors', f'--junitxml={x}'],
-                 cwd='/repo', stdout=subprocess.DEVNULL, stderr=subprocess.DEVNULL, env=env)
+                 cwd=ROOT, stdout=subprocess.DEVNULL, stderr=subprocess.DEVNULL, env=env)
   passed = set()
   for tc in ET.parse(x).getroot().iter('testcase'):
     if not any(c.tag in ('failure', 'error', 'skipped') for c in tc):
